@@ -1725,11 +1725,16 @@ Proof.
       * exact C.
     + destruct answers as [|a answers'].
       * injection H as <- <- <-. split; [|split]; [intros e s [] | discriminate | discriminate].
-      * destruct (deliver_batch answers' (if an_stops a then hi_trial h :: done else done) rest)
+      * assert (Hnd : ~ In (hi_trial h) done).
+        { intro Hin. apply mem_Z_in in Hin. congruence. }
+        destruct (an_stops a && an_exec_fails a) eqn:Efail.
+        { injection H as <- <- <-. apply andb_true_iff in Efail. destruct Efail as [Es _].
+          split; [|split]; [|discriminate|discriminate].
+          intros e s [Hin|[]]. injection Hin as <- <-. split; [exact Hnd|]. exists h, a.
+          split; [left; reflexivity | split; [reflexivity | symmetry; exact Es]]. }
+        destruct (deliver_batch answers' (if an_stops a then hi_trial h :: done else done) rest)
           as [[es rem'] ok'] eqn:E.
         injection H as <- <- <-. destruct (IH _ _ _ _ _ E) as (A & B & C).
-        assert (Hnd : ~ In (hi_trial h) done).
-        { intro Hin. apply mem_Z_in in Hin. congruence. }
         split; [|split].
         -- intros e s [Hin|Hin].
            ++ injection Hin as <- <-. split; [exact Hnd|]. exists h, a.
@@ -1760,7 +1765,7 @@ Proof.
   induction batch as [|h rest IH]; intros answers Hl Hf; [reflexivity|].
   destruct answers as [|a answers']; [cbn in Hl; lia|].
   cbn [length firstn forallb] in Hf. apply andb_true_iff in Hf. destruct Hf as [Ha Hf].
-  apply negb_true_iff in Ha. cbn [deliver_batch mem_Z]. rewrite Ha.
+  apply negb_true_iff in Ha. cbn [deliver_batch mem_Z]. rewrite Ha. cbn [andb].
   rewrite (IH answers'); [|cbn in Hl; lia|exact Hf]. cbn [combine map fst snd length skipn]. reflexivity.
 Qed.
 
